@@ -266,18 +266,16 @@ func Implements(T, V *abi.Type) bool {
 	if v == nil {
 		return false
 	}
-	i := 0
+	// The interface's methods are in go/types order (exported names first) while the
+	// type's table is sorted by "pkgpath.name" bytes, so one simultaneous pass is
+	// wrong when a package path sorts before an exported name; look each method up.
 	vmethods := v.Methods()
-	for j := 0; j < int(v.Mcount); j++ {
-		tm := &t.Methods[i]
-		vm := vmethods[j]
-		if vm.Name_ == tm.Name_ && vm.Mtyp_ == tm.Typ_ {
-			if i++; i >= len(t.Methods) {
-				return true
-			}
+	for i := range t.Methods {
+		if _, ok := findMethod(vmethods, t.Methods[i]); !ok {
+			return false
 		}
 	}
-	return false
+	return true
 }
 
 func EfaceEqual(v, u eface) bool {
